@@ -552,6 +552,10 @@ func init() {
 		run.NotDecided = []string{"termination and the bit-length bounds that keep (d0, d1) within 128 bits", "that the torsion statement follows (algebra)"}
 		run.Exhaustive = true
 		latticeRules(c)
+		// the plain and the precomputed (expanded) variants must agree: the precomputed tables of an
+		// expanded point are the multiples of ITS point (fresh table on re-initialisation, no stale
+		// copies, formulas, aliasing) — the group foundations
+		groupFoundations(c, false)
 	}
 }
 
